@@ -14,15 +14,20 @@ CONSTANTS MaxFields, Addrs, Sizes, Aligns, Palette, Ptrs, WithVft, WithPacked, N
 QAddrs == {None, 0, 2, 4, 8}
 QSizes == {None, 8, 12}
 QAligns == {None, 2, 4, 6}
-QPalette == {"u8", "u16", "u32", "u64", "cptr", "arr8x3", "unk2", "N", "E", "X", "arr32x0"}
+QPalette == {"u8", "u16", "u32", "u64", "cptr", "arr16x2"}
+Q2Addrs == {None, 0, 8, 12}
+Q2Sizes == {None}
+Q2Aligns == {None, 16}
+Q2Palette == {"u8", "u16", "u32", "u64", "u128", "i8", "i16", "i32", "i64", "i128", "f32", "f64", "bool",
+              "cptr", "pvoid", "arr8x3", "arr16x2", "arr32x2", "arr32x0", "unk2", "N", "E", "X", "S"}
 
 T1Palette == {"u8", "u16", "u32", "u64", "cptr", "arr8x3"}
 T1Sizes == {None, 16}
 T1Aligns == {None, 4}
 T2Addrs == {None, 0, 1, 2, 3, 4, 6, 8, 12}
-T2Palette == {"u8", "u16", "u32", "u64", "bool", "f32", "u128", "cptr", "mptr", "arr8x3", "arr16x2",
-              "arr32x0", "unk2", "unk0", "N", "arrNx2", "Z", "E", "X", "pN"}
-T2Aligns == {None, 8}
+T2Palette == {"u8", "u16", "u32", "u64", "bool", "f32", "u128", "i64", "cptr", "mptr", "pvoid", "arr8x3", "arr16x2",
+              "arr32x2", "arr32x0", "unk2", "unk0", "N", "arrNx2", "Z", "E", "X", "pN"}
+T2Aligns == {None, 8, 16}
 T3Sizes == {None, 0, 4, 6, 8, 12}
 T3Aligns == {None, 1, 2, 4, 8, 16}
 T3Palette == {"u8", "u16", "u32", "cptr", "N"}
@@ -32,17 +37,24 @@ HelperN == [TypeDef("N", "pub", <<Field("a", "pub", <<>>, TNm("u16"), None, FALS
                                    Field("b", "pub", <<>>, TNm("u16"), None, FALSE)>>)
               EXCEPT !.align = 2]
 HelperZ == TypeDef("Z", "pub", <<>>)
+(* a helper that is itself not realisable (size 12 is no multiple of 8): any input using it *)
+(* must be rejected; a change that lets it through is seen on the embedding type          *)
+HelperS == [TypeDef("S", "pub", <<Field("a", "pub", <<>>, TNm("u64"), None, FALSE),
+                                   Field("b", "pub", <<>>, TNm("u32"), None, FALSE)>>)
+              EXCEPT !.size = 12, !.align = 8]
 HelperE == EnumDef("E", "pub", TNm("u16"), <<Variant("A", None, FALSE), Variant("B", None, FALSE)>>)
 HelperX == ExtType("X", 8, 4)
 
 PaletteTypes ==
   [u8 |-> TNm("u8"), u16 |-> TNm("u16"), u32 |-> TNm("u32"), u64 |-> TNm("u64"),
-   bool |-> TNm("bool"), f32 |-> TNm("f32"), u128 |-> TNm("u128"),
+   bool |-> TNm("bool"), f32 |-> TNm("f32"), u128 |-> TNm("u128"), f64 |-> TNm("f64"),
+   i8 |-> TNm("i8"), i16 |-> TNm("i16"), i32 |-> TNm("i32"), i64 |-> TNm("i64"), i128 |-> TNm("i128"),
+   pvoid |-> TMPtr(TNm("void")), arr32x2 |-> TArr(TNm("u32"), 2),
    cptr |-> TCPtr(TNm("u8")), mptr |-> TMPtr(TNm("T")),
    arr8x3 |-> TArr(TNm("u8"), 3), arr16x2 |-> TArr(TNm("u16"), 2), arr32x0 |-> TArr(TNm("u32"), 0),
    unk2 |-> TUnk(2), unk0 |-> TUnk(0),
    N |-> TNm("N"), arrNx2 |-> TArr(TNm("N"), 2), Z |-> TNm("Z"), E |-> TNm("E"), X |-> TNm("X"),
-   pN |-> TCPtr(TNm("N"))]
+   pN |-> TCPtr(TNm("N")), S |-> TNm("S")]
 
 RECURSIVE Mentions(_, _)
 Mentions(ty, n) ==
@@ -66,6 +78,7 @@ MkInput(ptr, fs, size, align, packed, vft) ==
       helpers == (IF uses("N") THEN <<HelperN>> ELSE <<>>)
                  \o (IF uses("Z") THEN <<HelperZ>> ELSE <<>>)
                  \o (IF uses("E") THEN <<HelperE>> ELSE <<>>)
+                 \o (IF uses("S") THEN <<HelperS>> ELSE <<>>)
       T == [TypeDef("T", "pub", fields) EXCEPT !.size = size, !.align = align,
                                                !.packed = packed,
                                                !.vft = IF vft THEN VftOne ELSE NoVft]
@@ -83,14 +96,14 @@ MCSpec == MCInit /\ [][Next]_vars /\ WF_vars(Next)
 
 
 (* ------------------------------ properties ----------------------------- *)
-Crate == [ptr |-> input.ptr, files |-> out, exts |-> ExtMap(input)]
+Crate == [ptr |-> input.ptr, files |-> out, exts |-> ExtMap(input), real |-> <<>>]
 TIdx == Len(input.mods[1].defs)           \* the main type is the last definition
 TPath == <<"m", "T">>
 
 (* C03 is stated for descriptions over scalars, pointers, arrays and gaps  *)
 PlainInput ==
   \A i \in DOMAIN input.mods[1].defs[TIdx].fields :
-     ~(\E n \in {"N", "Z", "E", "X"} : Mentions(input.mods[1].defs[TIdx].fields[i].ty, n))
+     ~(\E n \in {"N", "Z", "E", "X", "S"} : Mentions(input.mods[1].defs[TIdx].fields[i].ty, n))
 
 (* known finding classes (section 4 of DESIGN.md); each is FALSE once the  *)
 (* corresponding repair is in                                              *)
@@ -100,7 +113,7 @@ KF_NonPow2Align ==
 
 (* for C03 the crate holds no emitted item that T's fields mention, so the *)
 (* compiler model can be evaluated in every terminal state                 *)
-PreCrate == [ptr |-> input.ptr, files |-> {}, exts |-> ExtMap(input)]
+PreCrate == [ptr |-> input.ptr, files |-> {}, exts |-> ExtMap(input), real |-> <<>>]
 
 Inv_C03 ==
   (Terminal /\ PlainInput /\ ~KF_NonPow2Align) =>
